@@ -287,7 +287,7 @@ def _verify_variant(c: Contract, tier: str, replay: bool, res: Result, choice: d
                 if k.post is None:
                     continue
                 try:
-                    pv = k.post(a, o.value)
+                    pv = k.post(a, o.value, WriteView(o.writes)) if _arity(k.post) >= 3 else k.post(a, o.value)
                 except sym.SymBoolUse as ex:
                     raise Unsupported(f"contract postcondition used a symbolic truth value: {ex}")
                 vcs.append(VC(f"{c.name}{tag}.path{i}.post{j}{'-' + k.label if k.label else ''}", "post", "", pc, SBool.lift(sym.Implies(w, pv))))
@@ -302,6 +302,8 @@ def _verify_variant(c: Contract, tier: str, replay: bool, res: Result, choice: d
             vcs.append(VC(f"{c.name}{tag}.path{i}.raise-{ev.etype.__name__}", "raise-region", ev.site, pc, SBool.lift(allowed), detail=f"{ev.etype.__name__} raised at {ev.site}"))
     if c.crosscheck and not c.canary and not any(hasattr(x, "register") for x in list(vals.values()) + list(b.named.values())):
         _crosscheck(c, vals, base, choice, res, c.crosscheck)
+    if eng.guard_violations:
+        vcs.append(VC(f"{c.name}{tag}.lock-discipline", "lock-discipline", eng.guard_violations[0], [], z3.BoolVal(False), detail=f"guarded state accessed without holding the lock: {sorted(set(eng.guard_violations))[:4]}"))
     if len(vcs) < c.min_obligations:
         raise Unsupported(f"only {len(vcs)} obligations generated (< {c.min_obligations}): vacuity guard")
 
@@ -355,6 +357,42 @@ def _verify_variant(c: Contract, tier: str, replay: bool, res: Result, choice: d
             res.undecided.append(d)
         if len(res.vcs) < 400:
             res.vcs.append(d)
+
+
+def _arity(f: Any) -> int:
+    try:
+        return f.__code__.co_argcount
+    except AttributeError:
+        return 2
+
+
+class WriteView:
+    """Post-state access for contracts of mutating methods: W(obj, field) is the value after the call."""
+
+    def __init__(self, writes: list[tuple]) -> None:
+        self.map: dict[tuple[int, str], Any] = {}
+        for cont, key, new in writes:
+            if isinstance(cont, SObj):
+                self.map[(id(cont), key)] = new
+
+    def __call__(self, obj: Any, field: str) -> Any:
+        if isinstance(obj, SObj):
+            return self.map.get((id(obj), field), obj.fields.get(field))
+        return object.__getattribute__(obj, field)
+
+    def written(self, obj: Any) -> list[str]:
+        return [k for (i, k) in self.map if i == id(obj)]
+
+
+class ConcreteWriteView:
+    def __init__(self, old: dict[str, Any], new: dict[str, Any]) -> None:
+        self.pairs = [(old[k], new[k]) for k in old if k in new]
+
+    def __call__(self, obj: Any, field: str) -> Any:
+        for o, n in self.pairs:
+            if o is obj:
+                return object.__getattribute__(n, field)
+        return object.__getattribute__(obj, field)
 
 
 def _wdesc(w: tuple) -> str:
@@ -437,7 +475,7 @@ def call_real(c: Contract, cvals: dict[str, Any], timeout_s: float = 5.0) -> tup
     return box[0]
 
 
-def eval_cases_concrete(c: Contract, a: NS, kind: str, value: Any) -> tuple[bool, str]:
+def eval_cases_concrete(c: Contract, a: NS, kind: str, value: Any, wview: Any = None) -> tuple[bool, str]:
     """Evaluate the contract on a concrete outcome of the real function."""
     try:
         for p in c.pre:
@@ -451,7 +489,7 @@ def eval_cases_concrete(c: Contract, a: NS, kind: str, value: Any) -> tuple[bool
             if not inreg:
                 return False, "returned normally, but the contract requires an exception for these inputs"
             for k in inreg:
-                if k.post is not None and k.post(a, value) is not True:
+                if k.post is not None and (k.post(a, value, wview) if _arity(k.post) >= 3 else k.post(a, value)) is not True:
                     return False, f"postcondition {k.label or cases.index(k)} is false on the returned value"
             return True, "ok"
         et = type(value)
@@ -471,8 +509,8 @@ def replay_concrete(c: Contract, vals: dict[str, Any], model: Any, choice: dict[
         cvals = _enumify(c, {k: concretize(v, ev, live=True) for k, v in vals.items()})
         kind, value = call_real(c, cvals)
         # inputs may have been mutated by the call: rebuild for contract evaluation of `old` state
-        cvals2 = {k: concretize(v, ev, live=True) for k, v in vals.items()}
-        ok, why = eval_cases_concrete(c, NS(cvals2), kind, value)
+        cvals2 = _enumify(c, {k: concretize(v, ev, live=True) for k, v in vals.items()})
+        ok, why = eval_cases_concrete(c, NS(cvals2), kind, value, ConcreteWriteView(cvals2, cvals))
         return {"confirmed": not ok, "observed": f"{kind}: {_short(value)}", "why": why}
     except Exception as ex:  # noqa: BLE001
         return {"confirmed": False, "note": f"replay error {type(ex).__name__}: {ex}"}
@@ -538,7 +576,9 @@ def plain_real(v: Any, depth: int = 0) -> Any:
     if isinstance(v, type):
         return v.__name__
     if type(v).__module__.startswith("pyoda_time") and hasattr(v, "__dict__"):
-        return {"__class__": type(v).__name__, **{k: plain_real(x, depth + 1) for k, x in vars(v).items()}}
+        return {"__class__": type(v).__name__, **{k: plain_real(x, depth + 1) for k, x in vars(v).items() if not k.startswith("$")}}
+    if type(v).__module__.startswith("pyoda_time") and hasattr(type(v), "__slots__"):
+        return {"__class__": type(v).__name__, **{("_" + type(v).__name__.lstrip("_") + k if k.startswith("__") else k): plain_real(getattr(v, "_" + type(v).__name__.lstrip("_") + k if k.startswith("__") else k, None), depth + 1) for k in type(v).__slots__ if "lock" not in k}}
     if isinstance(v, SObj):
         return {"__class__": v.cls.__name__, **{k: plain_real(x, depth + 1) for k, x in v.fields.items() if not k.startswith("$")}}
     from .values import SDict, SList
